@@ -16,7 +16,7 @@ BOUNDS = {"projects": "2 state points; presence of each in src/dst (all 16 combi
           "documents": "7 job-document states (none, one-sided, identical, disjoint incl. nested, flat conflict, nested conflict) x 3 project-document states",
           "options": "file family: selection {None, [id0], [], ()} x strategy {None, always, never, update, custom True/False} x recursive x exclude {None, 'f', 'g'} x entry point {Project.sync, Job.sync}; "
                      "document family: doc_sync {default, ByKey(all), ByKey(regex), update, NO_SYNC, COPY, ByKey(none)} x entry point; check_schema on/off; the two families are crossed with content fully, with each other only in thorough"}
-OUTSIDE = ["symlinks / permission / owner options", "FileSync.Ask", "more than 2 jobs per project", "file names other than f, sub/g, tags, sub/CVS, a{b}.txt, sub/{}"]
+OUTSIDE = ["symlinked FILES / permission / owner options (symlinked directories in the source: h_linked_dir)", "FileSync.Ask", "more than 2 jobs per project", "file names other than f, sub/g, tags, sub/CVS, a{b}.txt, sub/{}"]
 STUBS = []
 ASSUMPTIONS = ["tmpfs (/dev/shm) behaves like the user's file system for copy / stat / utime / rename", "paths on which the call raises FileSyncConflict / DocumentSyncConflict / SchemaSyncConflict are 'did not return' (their contract is C14)"]
 
@@ -372,10 +372,103 @@ def h_halfmade(entry: int, with_file: bool, with_doc: bool):
     assert not problems
 
 
+def _linked_dir_case(entry, newjob, nestedlink):
+    """the source job contains a SYMBOLIC LINK to a directory (results kept on scratch and linked into the job); follow_symlinks defaults
+    to True and recursive=True: the files below the link are source files like any others"""
+    problems = []
+    with SL.Scratch() as sc:
+        src, dst = SL.build(sc.root, 1 if newjob else 3, 1, 0, 0, 0, 0)
+        sj = src.open_job(SL.SPS[0])
+        store = os.path.join(sc.root, "scratch_storage")
+        SL.put(os.path.join(store, "traj.bin"), b"TRAJ", SL.T_MID)
+        SL.put(os.path.join(store, "frames", "f0.txt"), b"F0", SL.T_MID)
+        link = sj.fn("sub/output") if nestedlink else sj.fn("output")
+        os.makedirs(os.path.dirname(link), exist_ok=True)
+        os.symlink(store, link)
+        rel = "sub/output" if nestedlink else "output"
+        if entry == 0:
+            call = lambda: dst.sync(src, recursive=True, check_schema=False)
+        else:
+            call = lambda: dst.open_job(SL.SPS[0]).sync(src.open_job(SL.SPS[0]), recursive=True)
+        out = SL.outcome(call)
+        if out != "ok":
+            return [("sync did not return", out)]
+        dj = dst.open_job(SL.SPS[0])
+        for f_, want in (("traj.bin", b"TRAJ"), ("frames/f0.txt", b"F0")):
+            pth = dj.fn(rel + "/" + f_)
+            if not os.path.isfile(pth) or open(pth, "rb").read() != want:
+                problems.append(("file below a linked directory of the source job did not arrive", rel + "/" + f_))
+        if open(os.path.join(store, "traj.bin"), "rb").read() != b"TRAJ":
+            problems.append(("the linked storage changed",))
+    return problems
+
+
+def h_linked_dir(entry: int, newjob: bool, nestedlink: bool):
+    assert 0 <= entry <= 1
+    fresh_path()
+    entry, newjob, nestedlink = ci(entry, 0, 1), cb(newjob), cb(nestedlink)
+    with nt():
+        problems = _linked_dir_case(entry, newjob, nestedlink)
+    reached()
+    assert not problems
+
+
+def _copy_fault_case(entry, newjob, which, err):
+    """an I/O fault in the MIDDLE of copying one file (half of it is written, then ENOSPC/EIO): the sync either raises or completes -
+    it never returns normally with a file that is not byte-identical"""
+    import shutil as _sh, errno as _errno
+    problems = []
+    with SL.Scratch() as sc:
+        src, dst = SL.build(sc.root, 1 if newjob else 3, 1, 1, 0, 0, 0)
+        sj = src.open_job(SL.SPS[0])
+        SL.put(sj.fn("out/traj.bin"), b"T" * 4096, SL.T_MID)
+        SL.put(sj.fn("big.bin"), b"B" * 4096, SL.T_MID)
+        victim = ["traj.bin", "big.bin", "g"][which]
+        real = _sh.copyfile
+        fired = []
+
+        def faulty(a, b, *args, **kw):
+            if os.path.basename(a) == victim and not fired:
+                fired.append(a)
+                with open(a, "rb") as fa, open(b, "wb") as fb:
+                    data = fa.read()
+                    fb.write(data[:len(data) // 2])
+                raise OSError([_errno.ENOSPC, _errno.EIO][err], "injected", b)
+            return real(a, b, *args, **kw)
+        _sh.copyfile = faulty
+        try:
+            if entry == 0:
+                out = SL.outcome(lambda: dst.sync(src, recursive=True, check_schema=False))
+            else:
+                out = SL.outcome(lambda: dst.open_job(SL.SPS[0]).sync(src.open_job(SL.SPS[0]), recursive=True))
+        finally:
+            _sh.copyfile = real
+        if out == "ok" and fired:
+            bs = SL.snap(src.path)
+            ad = SL.snap(dst.path)
+            pre = "workspace/%s/" % sj.id
+            bad = sorted(k for k, v in bs.items() if k.startswith(pre) and v is not None and ad.get(k) not in (v,) and not k.endswith(DOCFN))
+            if bad:
+                problems.append(("sync returned normally after an I/O fault in the middle of a file, the destination is not byte-identical", bad[:3]))
+    return problems
+
+
+def h_copy_fault(entry: int, newjob: bool, which: int, err: int):
+    assert 0 <= entry <= 1 and 0 <= which <= 2 and 0 <= err <= 1
+    fresh_path()
+    entry, newjob, which, err = ci(entry, 0, 1), cb(newjob), ci(which, 0, 2), ci(err, 0, 1)
+    with nt():
+        problems = _copy_fault_case(entry, newjob, which, err)
+    reached()
+    assert not problems
+
+
 HARNESSES = [
     dict(name="h_files", twin="h_files__reach", timeout=(900, 3000), parts=(36, 36), unblock=True),
     dict(name="h_docs", timeout=(900, 3000), parts=(7, 7), unblock=True),
     dict(name="h_reuse", timeout=(300, 600), unblock=True),
     dict(name="h_lookalike", timeout=(300, 600), unblock=True),
     dict(name="h_halfmade", timeout=(300, 600), unblock=True),
+    dict(name="h_linked_dir", timeout=(300, 600), unblock=True),
+    dict(name="h_copy_fault", timeout=(300, 600), unblock=True),
 ]
